@@ -514,6 +514,71 @@ def run(ck):
                   'the encoder writes `%s` as it is%s' % (f.text(arg)[:60], '' if bad is None else ' — ' + bad))
     ck.floor('C15.verbatim', 'scalar writes in the payload encoders', nscal, 12)
 
+    # ---- the decoder's refusals are a closed set: too short, unsupported version, or the payload parser refused ----------------
+    # (encode() emits every message type at every supported version, so any further refusal — by type, by version/type
+    # combination, by content — rejects frames the encoder produces)
+    def disjuncts(f, n):
+        n = f.strip(n)
+        if f.nodes[n]['k'] == 'BinaryOperator' and f.nodes[n].get('op') == '||':
+            return disjuncts(f, f.kids(n)[0]) + disjuncts(f, f.kids(n)[1])
+        return [n]
+
+    def allowed_refusal(f, c):
+        nd = f.nodes[c]
+        neg = nd['k'] == 'UnaryOperator' and nd.get('op') == '!'
+        inner = f.strip(f.kids(c)[0]) if neg else c
+        cn = f.nodes[inner]
+        if neg and (cn.get('callee') or '') == NS + 'is_supported_message_version':
+            a0 = f.call_args(inner)[0]
+            return any(f.nodes[j]['k'] in ('CXXOperatorCallExpr', 'ArraySubscriptExpr') for x in origin_chain(f, a0) for j in f.walk(x)) or 'version' in f.text(a0)
+        if neg and (cn.get('callee') or '').endswith('::has_value'):
+            r_ = declref(f, f.receiver(inner))
+            if r_ is None:
+                return False
+            def from_parser(rhs_, depth=0):
+                if rhs_ is None or f.nodes[f.strip(rhs_)]['k'] in ('InitListExpr', 'CXXConstructExpr') and not f.kids(f.strip(rhs_)):
+                    return True              # value-initialised: empty until assigned
+                if any((f.nodes[j].get('callee') or '') in (ANON + 'parse_announce_payload', ANON + 'decode_payload_v1') for j in f.walk(rhs_)):
+                    return True
+                locs = {f.nodes[j]['d'] for j in f.walk(rhs_) if f.nodes[j]['k'] == 'DeclRefExpr' and f.nodes[j].get('dk') == 'Var' and not f.nodes[j].get('g')}
+                return depth < 3 and bool(locs) and all(all(from_parser(r2, depth + 1) for _k2, r2, _s2 in all_defs(f, d2)) for d2 in locs)
+            return all(from_parser(rhs_) for _k, rhs_, _s in all_defs(f, r_))
+        cmp_ = comparison(f, c)
+        if cmp_ and cmp_[0] in ('<', '<=', '>', '>='):
+            return any((f.nodes[j].get('callee') or '').endswith('::size') or f.nodes[j].get('n') == 'remaining' for x in cmp_[1:] for j in f.walk(x)) and \
+                any(const_value(f, x) is not None for x in cmp_[1:])
+        return False
+    ANON = NS + '(anonymous namespace)::'
+    bad_ref = []
+    nref = 0
+    for i in dec.walk():
+        if dec.nodes[i]['k'] != 'ReturnStmt' or 'nullopt' not in dec.text(i):
+            continue
+        nref += 1
+        guard = None
+        for a_ in dec.ancestors(i):
+            if dec.nodes[a_]['k'] == 'IfStmt':
+                guard = dec.nodes[a_]['cond']
+                break
+        if guard is None:
+            bad_ref.append((i, 'unconditional refusal'))
+            continue
+        for c_ in disjuncts(dec, guard):
+            if not allowed_refusal(dec, c_):
+                bad_ref.append((i, dec.text(c_)[:70]))
+    ck.floor('C15.accept', 'refusing exits of decode()', nref, 3)
+    ck.ob('C15.accept', 'C15.accept/decode-refusals-closed', not bad_ref, dec.loc(bad_ref[0][0]) if bad_ref else dec.loc(),
+          'decode() refuses a frame only because it is too short, its version is unsupported, or the payload parser refused it'
+          + ('' if not bad_ref else ' — other cause: `%s`' % bad_ref[0][1]))
+
+    # ---- the codec keeps no state between calls ---------------------------------------------------------------------------------
+    from props.C19 import impure_sites
+    for f_ in (enc, dec, P.fn(NS + 'encode_signed'), P.fn(NS + 'decode_signed')) + tuple(f for f in P.fns if f.q.startswith(ANON) and f.file.endswith('Message.cpp')):
+        imp = impure_sites(f_)
+        ck.ob('C15.pure', 'C15.pure/' + short_(f_.q).split('::')[-1], not imp, f_.loc(imp[0]) if imp else f_.loc(),
+              '%s keeps no state between calls (no static / thread_local local, no mutable namespace-scope variable): what is encoded or '
+              'decoded depends on the argument alone' % short_(f_.q))
+
 
 def _not_verbatim(f, root, P=None, depth=0):
     from sa.paths import unique_init
